@@ -138,7 +138,7 @@ Definition E_ATTRIBUTE : Z := 2.       (* AttributeError: <chord/> with no previ
 Definition E_INDEX : Z := 3.           (* IndexError: key outside the reader's table *)
 
 Definition init_st : st :=
-  mkSt 1 (inject_Z DEFAULT_QPM) 0%Q DEFAULT_MIDI_CHANNEL DEFAULT_MIDI_PROGRAM None 0 None (-1)
+  mkSt INIT_DIVISIONS (inject_Z INIT_QPM) 0%Q DEFAULT_MIDI_CHANNEL DEFAULT_MIDI_PROGRAM None 0 None (-1)
        0%Q 0 None None 0%Q 0.
 
 (** * Output events, in document order *)
